@@ -219,8 +219,23 @@ pub fn trace(
                 let instrumented_block =
                     gen_block(&func_name, &async_expr.block, true, false, &args);
                 let async_attrs = &async_expr.attrs;
+                // Only the pinned future is instrumented: keep the statements around it.
+                let source_stmt = internal_fun.source_stmt;
+                let before = input
+                    .block
+                    .stmts
+                    .iter()
+                    .take_while(|stmt| !std::ptr::eq(*stmt, source_stmt));
+                let after = input
+                    .block
+                    .stmts
+                    .iter()
+                    .skip_while(|stmt| !std::ptr::eq(*stmt, source_stmt))
+                    .skip(1);
                 quote::quote! {
+                    #(#before)*
                     Box::pin(#(#async_attrs) * #instrumented_block)
+                    #(#after)*
                 }
             }
         }
@@ -397,7 +412,7 @@ enum AsyncTraitKind<'a> {
 
 struct AsyncTraitInfo<'a> {
     // statement that must be patched
-    _source_stmt: &'a Stmt,
+    source_stmt: &'a Stmt,
     kind: AsyncTraitKind<'a>,
 }
 
@@ -475,7 +490,7 @@ fn get_async_trait_info(block: &Block, block_is_async: bool) -> Option<AsyncTrai
         async_expr.capture?;
 
         return Some(AsyncTraitInfo {
-            _source_stmt: last_expr_stmt,
+            source_stmt: last_expr_stmt,
             kind: AsyncTraitKind::Async(async_expr),
         });
     }
@@ -499,7 +514,7 @@ fn get_async_trait_info(block: &Block, block_is_async: bool) -> Option<AsyncTrai
         .find(|(_, fun)| fun.sig.ident == func_name)?;
 
     Some(AsyncTraitInfo {
-        _source_stmt: stmt_func_declaration,
+        source_stmt: stmt_func_declaration,
         kind: AsyncTraitKind::Function,
     })
 }
